@@ -262,4 +262,96 @@ def loadCachedPartitions (cache : Option Nat) (n : Nat) : Option Nat × List Int
     let c' := (n / 128 + 1) * 128
     (some c', (List.range c' |>.map Int.ofNat).take n)
 
+/-! ### what `(*Writer).partitions` makes of a metadata answer, and the list `WriteMessages` then offers -/
+
+/-- one topic entry of a metadata response, as far as `(*Writer).partitions` reads it -/
+structure MetaTopic where
+  name : String
+  err : Int            -- `ErrorCode`
+  nparts : Nat         -- `len(Partitions)`
+  deriving Repr, DecidableEq
+
+/-- `(*Writer).partitions`: the FIRST entry carrying the topic's name decides; a topic-level error code is returned as
+the error (no partition count), a missing entry is `UnknownTopicOrPartition` (3). -/
+def writerPartitions (resp : List MetaTopic) (topic : String) : Except Int Nat :=
+  match resp.find? (·.name == topic) with
+  | none => .error 3
+  | some t => if t.err ≠ 0 then .error t.err else .ok t.nparts
+
+/-- the list handed to `Balancer.Balance` by `WriteMessages` for one message: `loadCachedPartitions(numPartitions)`;
+no call at all when `partitions` failed. -/
+def writerOffer (cache : Option Nat) (resp : List MetaTopic) (topic : String) : Except Int (List Int) :=
+  match writerPartitions resp topic with
+  | .error e => .error e
+  | .ok n => .ok (loadCachedPartitions cache n).2
+
+/-! ### exclusive use of the hasher inside `Hash.Balance` / `ReferenceHash.Balance`
+
+Both methods use a `hash.Hash32` for `Reset; Write; Sum32`.  With a user-supplied Hasher the three calls run under
+`h.lock`; otherwise the hasher comes from `fnv1aPool` and goes back by a deferred `Put`.  The regenerated facts are the
+event lists of the two paths through each method (`Gen.BalancerConsts`); `ownedThroughout` is the caller-local
+discipline, `Pool` the shared state. -/
+
+inductive OwnEv where
+  | acquire        -- `h.lock.Lock()` resp. `fnv1aPool.Get()`
+  | release        -- `h.lock.Unlock()` resp. `fnv1aPool.Put(hasher)` as an ordinary statement
+  | deferRelease   -- the same inside a `defer`: runs when the method returns
+  | use            -- `hasher.Reset()`, `hasher.Write(..)`, `hasher.Sum32()`
+  deriving Repr, DecidableEq
+
+/-- the caller-local automaton: `holding` = between acquire and release, `deferred` = a deferred release is pending.
+`false` as soon as the hasher is used while not held, acquired twice, or released while not held / twice. -/
+def ownedRun : List OwnEv → Bool → Bool → Bool
+  | [], _, _ => true
+  | .acquire :: es, h, d => !h && ownedRun es true d
+  | .release :: es, h, d => h && !d && ownedRun es false d
+  | .deferRelease :: es, h, d => h && !d && ownedRun es h true
+  | .use :: es, h, d => h && ownedRun es h d
+
+def ownedThroughout (es : List OwnEv) : Bool := ownedRun es false false
+
+/-- is the caller holding after the events `es` (started not holding)? -/
+def holdingAfter : List OwnEv → Bool → Bool
+  | [], h => h
+  | .acquire :: es, _ => holdingAfter es true
+  | .release :: es, _ => holdingAfter es false
+  | .deferRelease :: es, h => holdingAfter es h
+  | .use :: es, h => holdingAfter es h
+
+/-- `sync.Pool` as the callers see it: objects lying in the pool, the next fresh object `New` would make, and who
+holds what between `Get` and `Put`. -/
+structure Pool where
+  free : List Nat
+  next : Nat
+  held : List (Nat × Nat)      -- (caller, object)
+  deriving Repr, DecidableEq
+
+inductive PoolEv where
+  | get (caller : Nat) (pick : Option Nat)   -- `none`: `New()` makes a fresh object; `some o`: the pooled object `o`
+  | put (caller : Nat)
+  | drop (o : Nat)                           -- the runtime may discard pooled objects at any time (GC)
+  deriving Repr, DecidableEq
+
+def Pool.init : Pool := ⟨[], 0, []⟩
+
+def Pool.step (p : Pool) : PoolEv → Option Pool
+  | .get c none =>
+    if p.held.any (·.1 == c) then none
+    else some { p with next := p.next + 1, held := (c, p.next) :: p.held }
+  | .get c (some o) =>
+    if p.held.any (·.1 == c) then none
+    else if p.free.contains o then some { p with free := p.free.erase o, held := (c, o) :: p.held }
+    else none
+  | .put c =>
+    match p.held.find? (·.1 == c) with
+    | none => none
+    | some (_, o) => some { p with free := o :: p.free, held := p.held.filter (·.1 != c) }
+  | .drop o => if p.free.contains o then some { p with free := p.free.erase o } else none
+
+def Pool.run (p : Pool) : List PoolEv → Option Pool
+  | [] => some p
+  | e :: es => match p.step e with
+    | none => none
+    | some p' => Pool.run p' es
+
 end KV.Balancer
